@@ -552,6 +552,7 @@ def io_rules(ctx, chk, facts, prog):
         io = ip.arg_object(st, 'io')
         rs = ip.run(IO_SET, [io, C(16, 0xff00 | off), v], st)
         bad = None
+        noverdict = None
         npaths = 0
         for r in rs:
             if r.status != 'ok':
@@ -586,6 +587,12 @@ def io_rules(ctx, chk, facts, prog):
                     from ..affine import equal_mod as _eq
                     if _eq(O(8, 'and', r2.ret, C(8, mask_)), O(8, 'and', v, C(8, mask_)), env, 8):
                         break
+                    lib_ = sorted(set(e_[1].split('::')[-1] for e_ in r2.state.events if e_[0] == 'extcall' and
+                                      any(k_ in e_[1] for k_ in ('iter', 'Iterator', 'fold', 'IntoIter'))))
+                    if lib_:
+                        # the value is computed by library iterator adaptors whose bodies are not part of the crate
+                        noverdict = 'the read of %s goes through %s, which this check does not model (no verdict)' % (name, lib_)
+                        break
                     bad = 'bit %d of %s does not read back as written (read bit is %s)' % (i, name, pb)
                     break
                 if bad:
@@ -593,7 +600,10 @@ def io_rules(ctx, chk, facts, prog):
             if bad:
                 break
         key = 'io:%02x:%s' % (off, name)
-        if bad:
+        if noverdict and not bad:
+            chk.error('C10.7 %s: %s' % (key, noverdict))
+            noverdict = None
+        elif bad:
             chk.fail('C10.7', key, bad, file, None)
         else:
             chk.ok('C10.7', key, sample={'register': name, 'offset': off, 'mask': mask_, 'paths': npaths})
